@@ -9,7 +9,7 @@ from runner import Case, CaseSet
 
 ID = 'C18'
 OBLIGATIONS = ['Props/C18.v', 'Props/Tie/wl_tie.v']
-RULE = ('short sequences (N 8..18) x nbins 2..6 x bin ranges inside [0,1] x flat-check period 50..300 x flatness criterion 0.1..0.6 x '
+RULE = ('short sequences (N 8..18) x nbins 2..6 x bin ranges inside [0,1] (the machine\'s nbins_actual / relevant_min are compared with the model\'s geometry of the REQUESTED range) x flat-check period 50..300 x flatness criterion 0.1..0.6 x '
         'convergence exp(2^-m)(1+-1e-3), m = 1..3, each under a seeded RNG tape (quick 6 runs, thorough 30); every step of every run '
         'is one replayed record; non-trivial = distinct run with >= 1 accepted and >= 1 rejected in-range proposal and >= 1 passed flat check')
 TRUSTED = ['the guarded trace hook in run_normal_WL (LOCALCIDER_VERIF=1, add-only) and the RNG tape shim',
@@ -170,8 +170,8 @@ def build(ctx):
             seq = 'EKEKGGEKEKSSDRKE'[:rng.randint(10, 16)]
         nb = rng.randint(2, 6)
         width = rng.choice([0.1, 0.2]) if nb <= 4 else 0.1
-        lo = rng.choice([0.0, 0.1, 0.2])
-        jobs.append((seq, nb, lo, lo + nb * width, rng.choice([50, 100, 200, 300]), rng.choice([0.1, 0.2, 0.3, 0.5, 0.6]),
+        lo = rng.choice([0.0, 0.1, 0.2, 0.3])
+        jobs.append((seq, nb, lo, round(lo + nb * width, 10), rng.choice([50, 100, 200, 300]), rng.choice([0.1, 0.2, 0.3, 0.5, 0.6]),
                      rng.randint(1, 3), rng.choice([-1, 1]), rng.randrange(10 ** 9), os.path.join(ctx.work, 'wl%d' % i)))
     # exact ties at a check (emptiest bin holds exactly crit * mean): dyadic criteria with short check periods, and the
     # boundary criterion 0 (every check with an empty bin is then a tie)
@@ -181,7 +181,7 @@ def build(ctx):
             seq = 'EKEKGGEKEKSSDRKE'[:12]
         nb = rng.randint(2, 3)
         lo = rng.choice([0.0, 0.1])
-        jobs.append((seq, nb, lo, lo + nb * 0.1, chk, crit, rng.randint(1, 2), rng.choice([-1, 1]), rng.randrange(10 ** 9),
+        jobs.append((seq, nb, lo, round(lo + nb * 0.1, 10), chk, crit, rng.randint(1, 2), rng.choice([-1, 1]), rng.randrange(10 ** 9),
                      os.path.join(ctx.work, 'wlt%d' % i)))
     res = pmap(_run, jobs, chunk=1)
     cases = []
@@ -217,14 +217,16 @@ def build(ctx):
         start, idx0 = steps[0][2], steps[0][4]
         ccfg = '{| nb_target := %s; nb_actual := %s; rmin := %s; nflat := %s; crit := %s |}' % (
             cnat(cfg['nb_target']), cnat(cfg['nb_actual']), cnat(cfg['rmin']), cnat(cfg['nflat']), cq(cfg['crit']))
-        coq = '(%s, %s, %s, %s, %s, (%s, %s))' % (ccfg, cstr(seq), cstr(start), cnat(idx0), clist(recs),
+        from fractions import Fraction
+        rq = lambda x: '(%d # %d)' % (Fraction(repr(x)).numerator, Fraction(repr(x)).denominator)   # the decimal the caller wrote
+        coq = '(%s, (%s, %s), %s, %s, %s, %s, (%s, %s))' % (ccfg, rq(job[2]), rq(job[3]), cstr(seq), cstr(start), cnat(idx0), clist(recs),
                                                    clist(cq(x) for x in ret[0]), clist(cq(x) for x in ret[1]))
         acc_n = sum(1 for e in steps if e[10])
         rej_n = sum(1 for e in steps if not e[10] and not e[6])
         cases.append(Case(coq, d, key=(seq, job[8]), nontrivial=(acc_n >= 1 and rej_n >= 1 and d['iterations'] >= 1)))
     ctx.notes['steps_replayed'] = sum(c.descr['steps'] for c in cases)
     return [CaseSet('C18', 'From LC Require Import Model.DeltaCheck.\n' + IMPORTS,
-                    'wlcfg * string * string * nat * list rec * (list Q * list Q)', 'check_c18', cases, shard=1)]
+                    'wlcfg * (Q * Q) * string * string * nat * list rec * (list Q * list Q)', 'check_c18', cases, shard=1)]
 
 
 def search(ctx, broken, cases):
